@@ -519,6 +519,10 @@ func evalWhileLoopStmt(vm *r.VM, node *syntax.WhileLoopStmt) error {
 			}
 			return err
 		}
+		// #4. 输出 inside the body ends the loop as well
+		if vm.GetReturnValue() != nil {
+			return nil
+		}
 	}
 }
 
@@ -655,6 +659,10 @@ func evalIterateStmt(vm *r.VM, node *syntax.IterateStmt) error {
 				}
 				return err
 			}
+			// 输出 inside the body ends the iteration as well
+			if vm.GetReturnValue() != nil {
+				return nil
+			}
 		}
 	case *value.HashMap:
 		for _, key := range tv.GetKeyOrder() {
@@ -671,6 +679,10 @@ func evalIterateStmt(vm *r.VM, node *syntax.IterateStmt) error {
 					}
 				}
 				return err
+			}
+			// 输出 inside the body ends the iteration as well
+			if vm.GetReturnValue() != nil {
+				return nil
 			}
 		}
 	default:
